@@ -297,6 +297,7 @@ def run(eng, rep) -> None:
     rep.rule("R09.2", "category tables agree; FcpV2.get returns the right population for every category with a check")
     rep.rule("R09.3", "every check and category verdict is consumed by attempt() unconditionally inside @catch; registration appends")
     rep.rule("R09.4", "checks do not write the schema; predicates are order-symmetric by form")
+    rep.rule("R09.5", "the size check measures the layout its plug-in emits: same encoder configuration as the writer (an array of structs raises in the non-unrolled layout and would be rejected although it fits)")
     rep.assume("list.count / len / in as specified by Python; order independence follows from the symmetric predicate forms (count, emptiness, membership)")
     prog.func(GENERAL)
     regs = registered_checks(eng)
@@ -369,6 +370,7 @@ def run(eng, rep) -> None:
 
     r092(eng, rep, regs)
     r093(eng, rep)
+    r095(eng, rep, regs, func_row)
     # ---- R09.4 -----------------------------------------------------------------------
     stateless(eng, rep, "R09.4", verification_path(eng))
     for f, varg, cat, owner in regs:
@@ -383,6 +385,79 @@ def run(eng, rep) -> None:
             if isinstance(root, ast.Name) and root.id in ps and not (kind == "aug" and isinstance(tgt, ast.Name)):
                 bad.append(norm(st, 70))
         rep.check(not bad, "R09.4", f.file, f.qual, "def %s: stores" % f.name, "reads only", "check mutates its arguments: %s" % "; ".join(bad))
+
+
+def encoder_configs(eng, f: FuncInfo):
+    """make_encoder(...) call sites in `f` -> [(call, unroll: True/False/None)]: the array-unrolling flag of the
+    context expression, resolved through one local binding and the context class' constructor default."""
+    prog = eng.prog
+    out = []
+    defs = Defs(f.node)
+
+    def default_of(cls_q):
+        ci = prog.classes.get(cls_q)
+        init = ci.methods.get("__init__") if ci else None
+        if init is None:
+            return None
+        a = init.node.args
+        names = [x.arg for x in a.args]
+        if "unroll_arrays" in names:
+            k = names.index("unroll_arrays") - (len(names) - len(a.defaults))
+            if 0 <= k < len(a.defaults) and isinstance(a.defaults[k], ast.Constant):
+                return bool(a.defaults[k].value)
+        return None
+
+    def flag(e, depth=0):
+        if isinstance(e, ast.Name) and depth < 3:
+            vs = defs.values(e.id)
+            if len(vs) == 1 and vs[0][0] == "assign" and vs[0][1] is not None:
+                return flag(vs[0][1], depth + 1)
+            return None
+        if isinstance(e, ast.Call):
+            if isinstance(e.func, ast.Attribute) and e.func.attr == "with_unroll_arrays":
+                a = e.args[0] if e.args else next((k.value for k in e.keywords if k.arg == "unroll_arrays"), None)
+                return bool(a.value) if isinstance(a, ast.Constant) else None
+            r = prog.resolve_expr_symbol(f.module, f, e.func)
+            if r and r[0] == "class" and r[1].endswith("EncoderContext"):
+                a = e.args[0] if e.args else next((k.value for k in e.keywords if k.arg == "unroll_arrays"), None)
+                if a is None:
+                    return default_of(r[1])
+                return bool(a.value) if isinstance(a, ast.Constant) else None
+        return None
+
+    for n in walk_local(f.node):
+        if isinstance(n, ast.Call):
+            r = prog.resolve_expr_symbol(f.module, f, n.func)
+            if r and r[0] == "func" and r[1] == "fcp.encoding.make_encoder":
+                ctx = n.args[2] if len(n.args) > 2 else next((k.value for k in n.keywords if k.arg == "ctx"), None)
+                out.append((n, flag(ctx) if ctx is not None else None))
+    return out
+
+
+def r095(eng, rep, regs, func_row) -> None:
+    prog = eng.prog
+    for f, varg, cat, owner in regs:
+        if func_row.get(f.qual) != 11:
+            continue
+        mine = encoder_configs(eng, f)
+        if not mine:
+            rep.undecided("R09.5", f.file, f.qual, "make_encoder(...)", "size check does not build its layout through make_encoder")
+            continue
+        emit = []
+        for g in prog.functions.values():
+            if g.module.name.split(".")[0] == owner and g is not f and not (g.parent is not None and g.parent.name == "register_checks"):
+                emit += [(g, c, u) for c, u in encoder_configs(eng, g)]
+        if not emit:
+            rep.undecided("R09.5", f.file, f.qual, "make_encoder(...)", "no emitting encoder site found in %s" % owner)
+            continue
+        want = {u for _, _, u in emit}
+        for c, u in mine:
+            if u is None or None in want or len(want) != 1:
+                rep.undecided("R09.5", f.file, f.qual, norm(c, 80), "encoder configuration not resolved to a constant")
+            elif u in want:
+                rep.ok("R09.5", f.file, f.qual, norm(c, 80), "unroll_arrays=%s, as at %s" % (u, "; ".join("%s" % g.qual for g, _, _ in emit)))
+            else:
+                rep.violation("R09.5", f.file, f.qual, norm(c, 80), "size check lays the message out with unroll_arrays=%s but the writer (%s) emits with unroll_arrays=%s: with arrays kept whole an array of structs has no computable length (ValueError -> verification error), so messages that fit in 64 bits are rejected" % (u, emit[0][0].qual, next(iter(want))))
 
 
 def stateless(eng, rep, rule: str, funcs) -> None:
